@@ -2,7 +2,7 @@
 import datetime
 import itertools
 
-from mc.core.runner import Result, pyasn1_site, exc_text
+from mc.core.runner import guarded, InternalError, Result, pyasn1_site, exc_text
 from mc.model import time680 as TM
 
 from pyasn1 import error as pyerr
@@ -166,7 +166,7 @@ def part_b(R):
         try:
             want, zoff = (TM.read_generalized if gen else TM.read_utc)(s)
         except TM.TimeSyntaxError:
-            raise RuntimeError('grammar generator produced %r which the reader rejects' % s)
+            raise InternalError('grammar generator produced %r which the reader rejects' % s)
         feats = {'b', cls.__name__, 'zone:' + ('local' if zoff is None and not s.endswith('Z') else 'Z' if s.endswith('Z') else 'offset')}
         if ',' in s:
             feats.add('comma')
@@ -238,9 +238,9 @@ def part_b(R):
 def shard(tier, i, n, seed):
     R = Result()
     if i == 0:
-        part_a(R)
+        guarded(R, lambda: part_a(R), {'part': 'a'}, {'a'}, 0)
     if i == (1 % n):
-        part_b(R)
+        guarded(R, lambda: part_b(R), {'part': 'b'}, {'b'}, 1)
     return R
 
 
